@@ -53,7 +53,7 @@ public:
 private:
     bool _is_prime(uint32_t n) const noexcept {
         for (auto d : _primes) {
-            if (d * d > n) {
+            if (uint64_t(d) * d > n) {
                 break;
             }
             DSPLIB_VERIF_COUNT_DIV();
@@ -108,7 +108,7 @@ bool isprime(uint32_t n) noexcept {
 
     PrimesGenerator gen;
     auto d = gen.current();
-    while (d * d <= n) {
+    while (uint64_t(d) * d <= n) {
         DSPLIB_VERIF_COUNT_DIV();
         if (n % d == 0) {
             return false;
@@ -127,7 +127,7 @@ arr_int factor(uint32_t n) {
     std::vector<int> res;
     PrimesGenerator gen;
     uint32_t d = gen.current();
-    while (d * d <= n) {
+    while (uint64_t(d) * d <= n) {
         DSPLIB_VERIF_COUNT_DIV();
         while (n % d == 0) {
             DSPLIB_VERIF_COUNT_DIV();
